@@ -115,6 +115,22 @@ struct ClientShared {
 
 fn run_client_op(db: &Arc<LocustDB>, op: &Op) -> OpResult {
     match op {
+        Op::Ingest(req) if req.path == IngestPath::Http => {
+            rt::core::log("op_invoke", || format!("ingest req={} (http)", req.id));
+            let r = crate::http::insert(db, req);
+            rt::core::log("op_return", || format!("ingest req={}", req.id));
+            match r {
+                Ok(o) if o.status == 200 => OpResult::Acked,
+                Ok(o) => OpResult::CallerPanicked(format!("/insert_bin answered {}", o.status)),
+                Err(m) => OpResult::CallerPanicked(m),
+            }
+        }
+        Op::HttpRawQuery { endpoint, sql } => {
+            let out = crate::http::query_via(db, *endpoint, sql);
+            // (the binary encodings carry no column order: take it from the statement)
+            let hint: Vec<String> = sql.strip_prefix("SELECT ").and_then(|r| r.split(" FROM ").next()).map(|l| l.split(", ").map(|x| x.trim_matches('"').to_string()).collect()).unwrap_or_default();
+            OpResult::Query(crate::http::as_query_result(*endpoint, &out, &hint))
+        }
         Op::Ingest(req) => {
             rt::core::log("op_invoke", || format!("ingest req={}", req.id));
             let eb = crate::wire::event_buffer_for(req);
@@ -256,7 +272,7 @@ pub fn exec_concurrent(env: &mut Env, clients: &[ClientPlan], ctx: &str) {
     };
     if hung {
         let pending: Vec<String> = rt::core::wait_reasons().into_iter().map(|(t, r)| format!("t{t}:{r}")).collect();
-        let cause = rt::core::with_ctx(|c| c.panics.first().map(|p| format!("hang_after_panic:{}:{}:concurrent", file_of(&p.location), stem(&p.message))));
+        let cause = rt::core::with_ctx(|c| c.panics.iter().find(|p| !p.contained).or(c.panics.first()).map(|p| format!("hang_after_panic:{}:{}:concurrent", file_of(&p.location), stem(&p.message))));
         env.collect_panics(ctx);
         env.violate(&cause.unwrap_or_else(|| "hang:concurrent:no_panic".into()), format!("[{ctx}] concurrent clients never finished: every thread is blocked ({pending:?}); {} of their ops had returned", records.len()));
         return;
@@ -290,7 +306,7 @@ pub fn exec_concurrent(env: &mut Env, clients: &[ClientPlan], ctx: &str) {
     check_prefix_consistency(env, &model_before, &records, ctx);
     let canary_rows = env.model.tables.get("canary").map(|t| t.rows.len() as i64);
     for r in &records {
-        if let (Op::RawQuery(sql), OpResult::Query(q)) = (&r.op, &r.result) {
+        if let (Op::RawQuery(sql) | Op::HttpRawQuery { sql, .. }, OpResult::Query(q)) = (&r.op, &r.result) {
             if sql == "SELECT COUNT(1) FROM canary" {
                 env.count("canaries");
                 let ok = matches!(q, Ok(o) if o.rows.len() == 1 && Some(o.rows[0][0].clone()) == canary_rows.map(Cell::I));
@@ -333,7 +349,7 @@ fn check_prefix_consistency(env: &mut Env, before: &Model, records: &[OpRecord],
     }
     for r in records {
         let (sql, out) = match (&r.op, &r.result) {
-            (Op::RawQuery(sql), OpResult::Query(q)) => (sql, q),
+            (Op::RawQuery(sql) | Op::HttpRawQuery { sql, .. }, OpResult::Query(q)) => (sql, q),
             _ => continue,
         };
         // only the query forms the C10 generator emits (see props::prefix_query)
